@@ -98,6 +98,16 @@ def expand(item, seed):
                 for i in range(0, len(ops), 6):
                     yield {"ops": ops[i:i + 6], "key": key, "trace": False, "accept": [], "seed": 3}
         for key in ("default", "bytes", "str"):
+            for n in (65535, 65536, 70000):
+                for opc in (1, 2):
+                    yield {"ops": [{"op": "send_frame", "kind": "bytes", "len": n, "opcode": opc, "fin": 0, "pseed": n},
+                                   {"op": "send_frame", "kind": "bytes", "len": n, "opcode": 0, "fin": 0, "pseed": n + 1},
+                                   {"op": "send_frame", "kind": "bytes", "len": 3, "opcode": 0, "fin": 1, "pseed": 5}],
+                           "key": key, "trace": False, "accept": [], "seed": 6}
+            yield {"ops": [{"op": "send_frame", "kind": "bytes", "len": 7, "opcode": 2, "fin": 1, "pseed": 1, "again": "same"},
+                           {"op": "send_frame", "kind": "bytes", "len": 200, "opcode": 2, "fin": 1, "pseed": 2, "again": "new_data"}],
+                   "key": key, "trace": False, "accept": [], "seed": 7}
+        for key in ("default", "bytes", "str"):
             for opcode in (8, 9, 10):
                 for n in (0, 1, 2, 3, 4, 5, 124, 125):
                     if opcode == 8 and n == 1:
@@ -149,11 +159,17 @@ def gen(rng):
             ops.append({"op": "send", "kind": "bytes", "len": rng.choice((0, 5, 124, 125)), "opcode": rng.choice((9, 10)), "pseed": ps})
         elif r < 0.92:
             opc = rng.choice((1, 2))
-            ops.append({"op": "send_frame", "kind": "text" if opc == 1 and rng.random() < 0.5 else "bytes",
-                        "len": _len(rng, False), "opcode": opc, "fin": 0, "pseed": ps})
+            big_frag = big < 2 and rng.random() < 0.15
+            big += big_frag
+            ops.append({"op": "send_frame", "kind": "text" if opc == 1 and rng.random() < 0.5 and not big_frag else "bytes",
+                        "len": rng.choice((65535, 65536, 65537, 70000)) if big_frag else _len(rng, False), "opcode": opc, "fin": 0, "pseed": ps})
             in_msg = True
-        else:
+        elif r < 0.96:
             ops.append({"op": "send_frame", "kind": "bytes", "len": _len(rng, False), "opcode": rng.choice((1, 2)), "fin": 1, "pseed": ps})
+        else:
+            # the same ABNF object written twice (second time optionally with a new payload): two frames, two key draws
+            ops.append({"op": "send_frame", "kind": "bytes", "len": _len(rng, False), "opcode": 2, "fin": 1, "pseed": ps,
+                        "again": rng.choice(("same", "new_data"))})
     if in_msg:
         ops.append({"op": "send_frame", "kind": "bytes", "len": 1, "opcode": 0, "fin": 1, "pseed": 1})
     if rng.random() < 0.4:
@@ -259,7 +275,8 @@ def run(sc, choices=None):
                 elif name == "send_frame":
                     exp_op = int(op.get("opcode", 1))
                     exp_fin = int(op.get("fin", 1))
-                    ret = c.send_frame(ws.ABNF.create_frame(val, exp_op, exp_fin))
+                    frame_obj = ws.ABNF.create_frame(val, exp_op, exp_fin)
+                    ret = c.send_frame(frame_obj)
                 elif name == "send_close":
                     exp_op = 8
                     st = int(op.get("status", 1000))
@@ -315,6 +332,33 @@ def run(sc, choices=None):
             if name in ("send", "send_text", "send_bytes", "send_binary", "send_frame") and ret != len(got):
                 res.violate("wrong_return_value", ctx, f"{name}(len={n}) returned {ret!r}, frame is {len(got)} bytes")
                 break
+            if name == "send_frame" and op.get("again"):
+                # write the very same frame object once more
+                before = len(conn.rx)
+                u0 = len(w.urandom_log)
+                k0 = len(keylog)
+                if op["again"] == "new_data":
+                    exp_payload = bytes(reversed(exp_payload)) + b"!"
+                    frame_obj.data = exp_payload
+                try:
+                    c.send_frame(frame_obj)
+                except SimAbort:
+                    raise
+                except BaseException as e:  # noqa
+                    res.violate("send_call_raised", ctx + "/same_object_again", f"{exc_name(e)}: {e}")
+                    break
+                got = bytes(conn.rx[before:])
+                fr = R.decode_one(got)
+                draws = [b for (_, nn, b, _) in w.urandom_log[u0:]] if keysrc == "default" else keylog[k0:]
+                if fr is None or fr.end != len(got) or fr.payload != exp_payload or not fr.masked or fr.opcode != exp_op:
+                    res.violate("payload_differs", ctx + "/same_object_again",
+                                f"frame object written a second time ({op['again']}): wire does not carry its current payload "
+                                f"({'no complete frame' if fr is None else 'decoded %d bytes' % len(fr.payload)}, expected {len(exp_payload)})")
+                    break
+                if len(draws) != 1 or draws[0] != fr.key:
+                    res.violate("key_not_single_draw", ctx + "/same_object_again",
+                                f"second write of one frame object: key on wire {fr.key.hex()}, draws {[d.hex() for d in draws][:3]}")
+                    break
         # independent implementation: websockets' sans-I/O server must parse the whole stream without error
         if not res.violations:
             why = _second_opinion(bytes(conn.rx), [p for p in prepared])
@@ -392,4 +436,4 @@ def _second_opinion(stream, prepared):
 
 def sample_view(sc, r):
     return {"key": sc.get("key"), "trace": sc.get("trace"), "short_write_pattern": sc.get("accept"),
-            "ops": [[o["op"], o.get("opcode"), o.get("fin", 1), o.get("kind"), o.get("len")] for o in sc["ops"]][:12]}
+            "ops": [[o["op"], o.get("opcode"), o.get("fin", 1), o.get("kind"), o.get("len"), o.get("again")] for o in sc["ops"]][:12]}
